@@ -90,6 +90,7 @@ def build(chk):
                              'copulas.multivariate.gaussian.GaussianMultivariate._fit_with_fallback_distribution',
                              'copulas.utils.get_instance', 'copulas.utils.store_args'])
     build_select(chk)
+    build_wrapper_fit(chk)
     build_candidates(chk)
     build_get_instance(chk)
     build_fit_column(chk)
@@ -290,6 +291,66 @@ def select_replay(env):
             bad.append('%s: selected %s with KS %.4f, but %r' % (name, type(sel).__name__, score.get(type(sel).__name__, -1),
                                                                  score))
     return {'confirmed': bool(bad), 'detail': '; '.join(bad) if bad else 'native selection picks the minimal-KS candidate'}
+
+
+def build_wrapper_fit(chk):
+    """Univariate.fit: EVERY call hands its own data and the candidate list to select_univariate (whose contract is
+    verified above) and installs the instance it returns, fitted on that data - also the second fit of the same object"""
+    I = engine.new_interp()
+    UNIV = uni.BASE + 'Univariate'
+    calls = []
+
+    def select_summary(interp, args, kwargs):
+        inst = uni.new_model(interp, 'GaussianUnivariate')
+        calls.append((args[0], args[1] if len(args) > 1 else kwargs.get('candidates'), inst))
+        return inst
+    I.summaries[SEL] = select_summary
+
+    def body(c):
+        del calls[:]
+        c.assume(ir.ge(uni.N, 2))
+        c.assume(ir.gt(ir.uf('n_unique', [uni.XW], 'I'), 1))
+        ny = Sym(ir.var('ny', 'I'))
+        c.assume(ir.ge(ny.t, 2))
+        c.assume(ir.gt(ir.uf('n_unique', [ir.var('y', 'U')], 'I'), 1))
+        m = I.call_qual(UNIV, [], {})
+        Y, X = Lane(ir.var('y@i'), ny), uni.data_lane()
+        I.call_method(m, 'fit', [Y])
+        first = list(calls)
+        I.call_method(m, 'fit', [X])
+        c.out['calls'] = list(calls)
+        c.out['first'] = first
+        c.out['X'], c.out['Y'] = X, Y
+        c.out['inst'] = m.attrs.get('_instance')
+        c.out['cands'] = I.call_method(m, '_select_candidates', [])
+        return None
+    res, _ = engine.run_paths(I, body)
+    k = 0
+    for r in res:
+        if r.outcome == 'unsupported':
+            chk.undecided.append(('C05.wrapper.refit.exec', 'executor', str(r.value)))
+            continue
+        if r.outcome != 'return':
+            chk.add(Ob('C05.wrapper.refit.no_exception.%s' % getattr(r.value, 'clsname', '?'), r.pc, ir.FALSE, function=UNIV + '.fit',
+                       free_ufs_ok=True, clause='fitting twice succeeds'))
+            continue
+        k += 1
+        st = r.state
+        cs = st['calls']
+
+        def same_data(a, b):
+            return isinstance(a, Lane) and isinstance(b, Lane) and a.t is b.t
+        ok = len(cs) == 2 and same_data(cs[0][0], st['Y']) and same_data(cs[1][0], st['X']) and st['inst'] is cs[1][2]
+        chk.add(Ob('C05.wrapper.refit.selects_again.%d' % k, [], ir.const(bool(ok)), backends=('syntactic',),
+                   function=UNIV + '.fit', replay=select_replay if 'select_replay' in globals() else None,
+                   clause='each of two successive fit calls on one Univariate runs select_univariate on ITS data and installs the '
+                          'instance that call returned [%d selection calls]' % len(cs)))
+        inst = st['inst']
+        fitted_on_x = isinstance(inst, Obj) and inst.attrs.get('fitted') is True
+        chk.add(Ob('C05.wrapper.refit.instance_fitted.%d' % k, [], ir.const(bool(fitted_on_x)), backends=('syntactic',),
+                   function=UNIV + '.fit', clause='the installed instance is fitted'))
+    if k == 0 and not chk.undecided:
+        chk.engine_error('C05.wrapper.refit: no returning path')
 
 
 def build_candidates(chk):
